@@ -6,20 +6,29 @@
    this sequential model (they are the subject of Model/ResendLts.v). *)
 From IV Require Import Base.Word.
 
-(* projection of rtp.Header that the property talks about *)
+(* rtp.Header's extension part: Extension flag, ExtensionProfile, Extensions
+   as (id, payload bytes) in slice order *)
+Definition hext := (bool * Z * list (Z * list Z))%type.
+Definition no_x : hext := (false, 0, []).
+
+(* projection of rtp.Header that the property talks about (everything but Version) *)
 Record hdr := mkH {
   h_pad : bool; h_padsize : Z; h_marker : bool; h_pt : Z; h_seq : Z;
-  h_ts : Z; h_ssrc : Z; h_csrc : list Z }.
+  h_ts : Z; h_ssrc : Z; h_csrc : list Z; h_x : hext }.
 
 (* RetainablePacket: sequenceNumber field, header, payload *)
 Record rp := mkRP { rp_seq : Z; rp_hdr : hdr; rp_pay : list Z }.
 
 Record rbuf := mkRB { rb_size : Z; rb_pkts : list rp; rb_hi : Z; rb_started : bool }.
 
+Definition ext_eqb (a b : Z * list Z) : bool := (fst a =? fst b) && list_eqb Z.eqb (snd a) (snd b).
+Definition hext_eqb (a b : hext) : bool :=
+  Bool.eqb (fst (fst a)) (fst (fst b)) && (snd (fst a) =? snd (fst b)) && list_eqb ext_eqb (snd a) (snd b).
+
 Definition hdr_eqb (a b : hdr) : bool :=
   Bool.eqb (h_pad a) (h_pad b) && (h_padsize a =? h_padsize b) && Bool.eqb (h_marker a) (h_marker b) &&
   (h_pt a =? h_pt b) && (h_seq a =? h_seq b) && (h_ts a =? h_ts b) && (h_ssrc a =? h_ssrc b) &&
-  list_eqb Z.eqb (h_csrc a) (h_csrc b).
+  list_eqb Z.eqb (h_csrc a) (h_csrc b) && hext_eqb (h_x a) (h_x b).
 
 Definition rp_eqb (a b : rp) : bool :=
   (rp_seq a =? rp_seq b) && hdr_eqb (rp_hdr a) (rp_hdr b) && list_eqb Z.eqb (rp_pay a) (rp_pay b).
@@ -95,7 +104,7 @@ Definition rb_get (b : rbuf) (seq : Z) : option rp :=
 (* direct-API operations of the c04buf correspondence set *)
 Inductive bop := BAdd (seq id : Z) | BGet (seq : Z) | BClear.
 
-Definition mk_plain (seq id : Z) : rp := mkRP seq (mkH false 0 false 0 seq id 0 []) [].
+Definition mk_plain (seq id : Z) : rp := mkRP seq (mkH false 0 false 0 seq id 0 [] no_x) [].
 
 Definition bstep (b : rbuf) (o : bop) : rbuf * option (Z * Z) :=
   match o with
